@@ -97,6 +97,9 @@ Sleep == /\ phase = "sleep"
          /\ UNCHANGED <<cfg, last, sent, tlog, script, result>>
 Next == Begin \/ BeginDone \/ (\E o \in RespOutcomes \cup ExcOutcomes : Transport(o)) \/ Complete \/ CompleteDone \/ Decide \/ Sleep
 Spec == Init /\ [][Next]_vars
+FairSpec == Spec /\ WF_vars(Next)
+\* whatever the transport does, the caller eventually gets an outcome (the retry loop is bounded)
+Termination == <>(phase = "done")
 
 (******************************** properties ********************************)
 Done == phase = "done"
